@@ -205,7 +205,20 @@ def classify(h, res, err, props, cbmc):
         mach = [c for c in failed if MACHINERY_PAT.search(c["description"]) or
                 MACHINERY_PAT.search(c.get("category") or "")]
         if mach:
-            out.update(verdict="undecided", reason="bound/encoding: " + mach[0]["description"])
+            # Kani's own "unsupported construct" check (e.g. pointer arithmetic on a dangling `Vec` pointer whose
+            # length CBMC could not keep concrete) is a tool limitation on that path: the harness is undecided, which
+            # is reported and never counted as discharged, but it is neither a violation nor a wrong bound. Whether it
+            # triggers was observed to depend on the build path (symbol order), so it must not break a run.
+            tool = [c for c in mach if "does not support reasoning about pointer to unallocated memory" in c["description"]
+                    or (c.get("category") or "") == "unsupported_construct"]
+            only_tool = tool and all(
+                c in tool or not MACHINERY_PAT.search(c["description"] + " " + (c.get("category") or ""))
+                for c in failed) and not any("unwinding" in c["description"] or "missing_definition" in (c.get("category") or "")
+                                             for c in failed)
+            if only_tool:
+                out.update(verdict="undecided", reason="tool limitation: " + tool[0]["description"])
+            else:
+                out.update(verdict="undecided", reason="bound/encoding: " + mach[0]["description"])
             return out
         if h.kind == "reach":
             only_false = all("assertion failed: false" in c["description"] for c in failed)
